@@ -434,6 +434,12 @@ def pair_worker(job):
     base = runner(None, (), strict)
     sender = 'client' if role == 'server' else 'server'
     p1 = wellformed(t1, sender)
+    singles = {}
+
+    def single(t):
+        if t not in singles:
+            singles[t] = runner(pos, (wellformed(t, sender),), strict)
+        return singles[t]
     for t2 in types2:
         obs = runner(pos, (p1, wellformed(t2, sender)), strict)
         acc.add(core.digest((role, str(pos), strict, t1, t2, obs['ended'], obs['exc'])),
@@ -445,9 +451,17 @@ def pair_worker(job):
             vs.append(('loop-exception', obs['loop_exc'][0]))
         if obs['stalled']:
             vs.append(('livelock', obs['stalled']))
-        if pos != 'pre-version' and obs['injected'] and not (ok1 and ok2) and not obs['ended'] and strip(obs) != strip(base):
-            if not ok1 or t1 in (2, 3, 4):
-                vs.append(('took-effect', 'pair (%d,%d) at %r: %s' % (t1, t2, pos, _diff(obs, base))))
+        if pos != 'pre-version' and obs['injected'] and not (ok1 and ok2) and not obs['ended']:
+            # an out-of-phase message that does not end the connection has no effect: the session must look
+            # like the one in which only the other (in-phase) message was sent, or like the baseline
+            if not ok1 and not ok2:
+                ref, what = base, 'the baseline'
+            elif not ok1:
+                ref, what = single(t2), 'the run with only type %d' % t2
+            else:
+                ref, what = single(t1), 'the run with only type %d' % t1
+            if strip(obs) != strip(ref) and not ref['ended']:
+                vs.append(('took-effect', 'pair (%d,%d) at %r differs from %s: %s' % (t1, t2, pos, what, _diff(obs, ref))))
         for kind, detail in vs:
             acc.violation('phase:%s:%s:pos=%s:pair=%d,%d:strict=%s' % (kind, role, pos, t1, t2, strict),
                           detail, {'role': role, 'pos': pos, 'strict': strict, 'pair': [t1, t2]})
@@ -601,14 +615,14 @@ def main(tier, seed):
     acc.merge(seqreset_checks())
     if True:
         pj = []
-        ptypes = PAIR_TYPES if tier == 'thorough' else [2, 4, 20, 21, 50, 52, 80, 90, 94]
+        ptypes = TYPES if tier == 'thorough' else [2, 4, 20, 21, 50, 52, 80, 90, 94]
         for strict in (True, False):
             for role, poss in (('server', SRV_POSITIONS), ('client', CLI_POSITIONS)):
                 for pos in poss:
                     for t1 in ptypes:
                         pj.append((role, pos, strict, t1, ptypes))
         acc.merge(core.pmap(pair_worker, core.rotate(pj, seed), chunksize=4))
-    depth = 5 if tier == 'quick' else 7
+    depth = 5 if tier == 'quick' else 8
     acc.merge(core.pmap(auth_worker, [([(a, b)], depth) for a in AUTH_EVENTS for b in AUTH_EVENTS]))
     rule = ('message type (1..100,192,255) x shape (well-formed, truncated, trailing byte) x position '
             '(%d server-side, %d client-side incl. pending auth request and client parked in an async '
@@ -643,9 +657,9 @@ def replay(rep):
     pos = tuple(r['pos']) if isinstance(r['pos'], list) else r['pos']
     base = runner(None, (), r['strict'])
     if 'pair' in r:
-        payloads = tuple(wellformed(t, sender) for t in r['pair'])
-        obs = runner(pos, payloads, r['strict'])
-        v = [('pair', _diff(obs, base))] if strip(obs) != strip(base) and not obs['ended'] else []
+        acc = pair_worker((r['role'], pos, r['strict'], r['pair'][0], [r['pair'][1]]))
+        obs = {}
+        v = [(x['signature'], x['detail']) for x in acc.violations]
     else:
         payload = dict(shapes(r['type'], sender))[r['shape']]
         obs = runner(pos, (payload,), r['strict'])
